@@ -28,6 +28,11 @@ def run(ctx, db, tier):
     ownership_unique(ctx, db, 'C07.ownership-unique')
     from . import C02, C06
     C06.consumers_clear(ctx, db, 'C07.awaited-release-resumes-once')
+    # lock requests are pushed onto _requests by the generic lock-free push and registered through the generic awaiter; the new owner
+    # travels in the suspend point returned by release()
+    C02.link_current(ctx, db, 'C07.request-links-current-top')
+    C02.await_suspend_siblings(ctx, db, 'C07.registration-answer-is-the-grant')
+    C06.source_reset(ctx, db, 'C07.granted-owner-not-dropped')
     C02.sync_waits(ctx, db, 'C07.blocking-lock-waits')
     atomic.check_roles(ctx, db, 'C07.acquire-release', only_functions={'cocls::mutex::ready', 'cocls::mutex::unlock', 'cocls::mutex::build_queue', 'cocls::awaiter::subscribe'}, floor=4)
     if ctx.cfg == 'assert':
